@@ -2,6 +2,7 @@ package c02
 
 import (
 	"fmt"
+	"math/big"
 	"regexp"
 	"strconv"
 	"strings"
@@ -50,8 +51,11 @@ var (
 // definitelyViolates is written from the documentation table and errs on the permissive side wherever the docs are
 // silent (byte vs. rune length, integer width, float syntax, guid spellings).
 func (c Cons) definitelyViolates(v string) bool {
-	isInt := reInt.MatchString(v) && len(v) < 18
+	isInt := reInt.MatchString(v)
 	atoi := func(s string) int { n, _ := strconv.Atoi(s); return n }
+	// integer comparisons of any width (a value beyond 64 bits is still larger than max(50))
+	big := func(s string) *big.Int { n, _ := new(big.Int).SetString(strings.TrimPrefix(s, "+"), 10); return n }
+	lt := func(a, b string) bool { return big(a).Cmp(big(b)) < 0 }
 	switch c.Name {
 	case "int":
 		return !reInt.MatchString(v)
@@ -81,11 +85,11 @@ func (c Cons) definitelyViolates(v string) bool {
 		lo, hi := atoi(c.Args[0]), atoi(c.Args[1])
 		return (l < lo || l > hi) && (r < lo || r > hi)
 	case "min":
-		return !isInt || atoi(v) < atoi(c.Args[0])
+		return !isInt || lt(v, c.Args[0])
 	case "max":
-		return !isInt || atoi(v) > atoi(c.Args[0])
+		return !isInt || lt(c.Args[0], v)
 	case "range":
-		return !isInt || atoi(v) < atoi(c.Args[0]) || atoi(v) > atoi(c.Args[1])
+		return !isInt || lt(v, c.Args[0]) || lt(c.Args[1], v)
 	case "datetime":
 		_, err := time.Parse(c.Args[0], v)
 		return err != nil
@@ -93,7 +97,7 @@ func (c Cons) definitelyViolates(v string) bool {
 		re, err := regexp.Compile(c.Args[0])
 		return err == nil && !re.MatchString(v)
 	case "even", "isEven":
-		return !isInt || atoi(v)%2 != 0
+		return !isInt || big(v).Bit(0) != 0
 	}
 	return false
 }
@@ -422,6 +426,7 @@ var valPool = []string{"1", "12", "15", "7", "100", "-3", "+4", "true", "x", "ab
 	"CD2C1638-1638-72D5-1638-DEADBEEF1638", "a1", "é", "ééé", "0", "18", "a-b", "a.b", "", "12a", ":id", "<int>", "12-34", "b", "cab", "a/b", "16", "4", "99999999999999999999",
 	// letters whose Unicode lower-case form has another byte length (case-insensitive routing must not shift offsets)
 	"ABC", "Feb-03", "a!", "XY",
+	"9223372036854775807", "9223372036854775808", "9999999999999999999", "-9223372036854775809", "+9223372036854775808", "18446744073709551616",
 	"\u212a12", "\u2126x", "\u0130b", "\u023aab", "x\u212a"}
 
 var firstLits = []string{"/", "/u", "/user/", "/a-", "/us/", "/v1/"}
